@@ -280,6 +280,9 @@ pub broadcast axiom fn axiom_iter_seq_chars<'a>(it: core::str::Chars<'a>)
 pub assume_specification[ char::from_u32 ](i: u32) -> (r: Option<char>)
     ensures r == (if i <= 0xD7FF || (0xE000 <= i && i <= 0x10FFFF) { Some(i as char) } else { None::<char> });
 
+pub assume_specification[ char::to_ascii_lowercase ](c: &char) -> (r: char)
+    ensures r == (if 'A' <= *c && *c <= 'Z' { ((*c as u8) + 32) as char } else { *c });
+
 pub assume_specification[ char::is_ascii ](c: &char) -> (r: bool)
     ensures r == ((*c as u32) <= 0x7f);
 
@@ -322,6 +325,21 @@ pub fn vx_nfkc_collect(s: &str) -> (r: String)
     ensures r@ == spec_nfkc(s@)
 { unimplemented!() /* s.nfkc().collect::<String>() */ }
 
+
+// `unicode_normalization::NAME(` is rewritten to `crate::vx::un::NAME(` (W.un): the two functions the library uses carry
+// the assumed contract, every other name of the crate is present with NO contract
+pub mod un {
+    use super::*;
+    #[verifier::external_body]
+    pub fn is_nfc(s: &str) -> (r: bool) ensures r ==> spec_nfc(s@) == s@ { unimplemented!() }
+    #[verifier::external_body]
+    pub fn is_nfkc(s: &str) -> (r: bool) ensures r ==> spec_nfkc(s@) == s@ { unimplemented!() }
+    #[verifier::external_body]
+    pub fn is_nfd(s: &str) -> bool { unimplemented!() }
+    #[verifier::external_body]
+    pub fn is_nfkd(s: &str) -> bool { unimplemented!() }
+    pub use super::{is_nfc_quick, is_nfkc_quick, is_nfd_quick, IsNormalized};
+}
 
 // names of the unicode-normalization crate that a change may start to use: present with NO contract (any result),
 // so that such code still reaches the verifier and fails the obligations it can no longer meet
